@@ -38,6 +38,7 @@ pub trait PageSource {
 #[derive(Clone, Debug)]
 pub struct Finding {
     pub verdict: &'static str,
+    #[allow(dead_code)]
     pub page: u32,
     pub detail: String,
 }
@@ -589,13 +590,15 @@ impl Walker {
                 w.shape.interiors += 1;
                 for (i, s) in seps.iter().enumerate() {
                     let below = lo.map(|lo| s.as_slice() < lo).unwrap_or(false);
-                    let above = hi.map(|hi| s.as_slice() >= hi).unwrap_or(false);
+                    // a separator equal to an inherited bound only makes one child range empty;
+                    // no key can be misplaced by it, so only strictly-outside separators count
+                    let above = hi.map(|hi| s.as_slice() > hi).unwrap_or(false);
                     if below || above {
                         w.findings.push(Finding {
                             verdict: "separator-violates-subtree",
                             page,
                             detail: format!(
-                                "interior page {}: separator[{}]={} outside the bounds [{}, {}) inherited from its ancestors",
+                                "interior page {}: separator[{}]={} outside the bounds [{}, {}] inherited from its ancestors",
                                 page,
                                 i,
                                 bk(s),
@@ -614,6 +617,33 @@ impl Walker {
                     self.visit(w, *c, clo, chi, depth + 1, page, &via);
                 }
             }
+        }
+    }
+
+    /// Leaf a lookup of `key` is routed to, by the documented navigation rule (first separator
+    /// greater than the key selects the child, else the right child), from the cached parses.
+    pub fn route(&mut self, src: &dyn PageSource, root: u32, key: &[u8]) -> Option<u32> {
+        let mut page = root;
+        for _ in 0..64 {
+            let p = self.parsed(src, page)?;
+            match &p.node {
+                Node::Leaf { .. } => return Some(page),
+                Node::Interior { seps, children } => {
+                    let i = seps.iter().position(|s| key < s.as_slice()).unwrap_or(seps.len());
+                    page = *children.get(i)?;
+                }
+                Node::Bad { .. } => return None,
+            }
+        }
+        None
+    }
+
+    /// (cell count, last key) of a leaf page, from the cached parse.
+    pub fn leaf_last(&mut self, src: &dyn PageSource, page: u32) -> Option<(usize, Option<Vec<u8>>)> {
+        let p = self.parsed(src, page)?;
+        match &p.node {
+            Node::Leaf { n, last, .. } => Some((*n, last.clone())),
+            _ => None,
         }
     }
 
